@@ -40,6 +40,7 @@ type c11cfg struct {
 	opsPer  int
 	keys    int
 	bulk    bool
+	mass    bool // many entries of one shard expire at once while stores / a flush hit that shard during the sweep
 	cleaner time.Duration
 	hist    [][]porcupine.Operation
 	lenMax  int
@@ -67,6 +68,7 @@ func c11Setup(rc *RunCtx) simrt.Config {
 	c := &c11cfg{}
 	c.size = c11sizes[r.Choose(len(c11sizes))]
 	c.bulk = r.Choose(5) == 0
+	c.mass = !c.bulk && r.Choose(8) == 0
 	c.tasks = 2 + r.Choose(7)
 	c.keys = 1 + r.Choose(4)
 	c.opsPer = 1 + r.Choose(6)
@@ -88,6 +90,7 @@ func c11Setup(rc *RunCtx) simrt.Config {
 	rc.Cfg["keys"] = c.keys
 	rc.Cfg["ops_per_task"] = c.opsPer
 	rc.Cfg["bulk"] = c.bulk
+	rc.Cfg["mass_expiry"] = c.mass
 	rc.Cfg["cleaner_ms"] = int(c.cleaner / time.Millisecond)
 	rc.Cfg["kind"] = "pkg/cache"
 	rc.priv = c
@@ -101,8 +104,93 @@ func c11Bound(size int) int {
 	return size
 }
 
+// c11Mass: one shard holds a few long-lived entries and 200-400 entries that
+// expire together; at the instant the cleaner's sweep removes them, writers
+// overwrite the long-lived entries (or one task flushes). Once everything is
+// quiet, a lookup must return the last value stored under its key (or nothing
+// at all after the flush).
+func c11Mass(rc *RunCtx, c *c11cfg) {
+	cc := cache.New[ck, *int](cache.Opts{Size: 64 * 1024, CleanerInterval: time.Second})
+	defer cc.Close()
+	shard := uint64(simrt.Choose(64))
+	nExp := 200 + simrt.Choose(200)
+	nLive := 4 + simrt.Choose(12)
+	soon := time.Now().Add(500 * time.Millisecond)
+	far := time.Now().Add(time.Hour)
+	for k := 0; k < nExp; k++ {
+		ckShard[ck(1000+k)] = shard + 64*uint64(k+1)
+		v := -1
+		cc.Store(ck(1000+k), &v, soon)
+	}
+	last := make([]int, nLive) // one writer per index (a shared map would race in the race build)
+	for j := 0; j < nLive; j++ {
+		ckShard[ck(3000+j)] = shard + 64*uint64(2000+j)
+		v := 100 + j
+		cc.Store(ck(3000+j), &v, far)
+		last[j] = v
+	}
+	flush := simrt.Choose(4) == 0
+	nw := 1 + simrt.Choose(3)
+	done := make(chan struct{}, 8)
+	n := 0
+	if flush {
+		n++
+		simrt.GoNamed("flusher", func() {
+			simrt.Sleep(0, time.Second) // the cleaner's first tick
+			if simrt.Choose(2) == 0 {
+				simrt.Yield(0)
+			}
+			cc.Flush()
+			simrt.Fault("flush_during_sweep")
+			simrt.Send(0, done, struct{}{})
+		})
+	} else {
+		for wi := 0; wi < nw; wi++ {
+			wi := wi
+			n++
+			simrt.GoNamed(fmt.Sprintf("writer%d", wi), func() {
+				simrt.Sleep(0, time.Second)
+				for round := 0; round < 1+simrt.Choose(3); round++ {
+					for j := wi; j < nLive; j += nw { // each key has one writer
+						v := 10000*(round+1) + j
+						cc.Store(ck(3000+j), &v, far)
+						last[j] = v
+					}
+				}
+				simrt.Fault("stores_during_sweep")
+				simrt.Send(0, done, struct{}{})
+			})
+		}
+	}
+	for i := 0; i < n; i++ {
+		simrt.Recv(0, done)
+	}
+	simrt.Sleep(0, 50*time.Millisecond)
+	for j := 0; j < nLive && rc.Viol == nil; j++ {
+		v, _, ok := cc.Get(ck(3000 + j))
+		switch {
+		case flush && ok:
+			rc.Fail("flushed_entry_came_back", "key %d was stored before Flush returned and never stored again, but a later lookup returns %d", 3000+j, *v)
+		case !flush && !ok:
+			rc.Fail("stored_value_lost", "key %d: last store (value %d, expires in an hour) returned long ago, but a lookup finds nothing", 3000+j, last[j])
+		case !flush && *v != last[j]:
+			rc.Fail("overwritten_value_served", "key %d: lookup returns %d, which was overwritten with %d before the lookup began", 3000+j, *v, last[j])
+		}
+	}
+	if flush && rc.Viol == nil {
+		if l := cc.Len(); l != 0 {
+			rc.Fail("flushed_entry_came_back", "Len()=%d after Flush returned and nothing was stored since", l)
+		}
+	}
+	simrt.Probe("c11.mass_expiry_checked")
+}
+
 func c11Main(rc *RunCtx) {
 	c := rc.priv.(*c11cfg)
+	if c.mass {
+		c11Mass(rc, c)
+		return
+	}
 	cc := cache.New[ck, *int](cache.Opts{Size: c.size, CleanerInterval: c.cleaner})
 	bound := c11Bound(c.size)
 	if c.bulk {
